@@ -11,7 +11,7 @@ import (
 
 const (
 	stallWindowC33 = 3 * time.Second // a stall is C32's business: the C33 run only stops waiting
-	replayReps     = 8
+	replayReps     = 5
 )
 
 func checkStress33(sc scenarioT, r *evid.Rec) []evid.Disc {
